@@ -129,4 +129,54 @@ theorem pos_of_posKey_disj {S : Store} {k : Int} {cs nm} (hk : PosKey S (some k)
   · omega
   · simp [h0] at hk
 
+/-! ### negated keys -/
+
+theorem cutEval_neg (S : Store) (α : Nat → Bool) (f : Nat) (A : List Nat) (k : Int) (hk : k ≠ 0) :
+    cutEval S α (f + 1) A (some (-k)) = !cutEval S α (f + 1) A (some k) := by
+  rw [cutEval_succ, cutEval_succ]
+  have h1 : ¬ (-k = 0) := by omega
+  simp only [h1, hk, ↓reduceIte, Int.natAbs_neg]
+  by_cases h : k < 0
+  · have h2 : ¬ (-k < 0) := by omega
+    simp only [h, h2, ↓reduceIte, Bool.not_not]
+  · have h2 : -k < 0 := by omega
+    simp only [h, h2, ↓reduceIte]
+
+theorem lfpEval_neg (S : Store) (α : Nat → Bool) (n : Nat) (k : Int) (hk : k ≠ 0) :
+    lfpEval S α n (some (-k)) = !lfpEval S α n (some k) := by
+  have h1 : ¬ (-k = 0) := by omega
+  cases n with
+  | zero =>
+    rw [lfpEval_zero, lfpEval_zero]
+    simp only [h1, hk, ↓reduceIte, Int.natAbs_neg]
+    by_cases h : k < 0
+    · have h2 : ¬ (-k < 0) := by omega
+      simp only [h, h2, ↓reduceIte, Bool.not_not]
+    · have h2 : -k < 0 := by omega
+      simp only [h, h2, ↓reduceIte]
+  | succ n =>
+    rw [lfpEval_succ, lfpEval_succ]
+    simp only [h1, hk, ↓reduceIte, Int.natAbs_neg]
+    by_cases h : k < 0
+    · have h2 : ¬ (-k < 0) := by omega
+      simp only [h, h2, ↓reduceIte, Bool.not_not]
+    · have h2 : -k < 0 := by omega
+      simp only [h, h2, ↓reduceIte]
+
+theorem cutEval_neg' (S : Store) (α : Nat → Bool) (f : Nat) (A : List Nat) (k : Int) (hk : k ≠ 0) :
+    cutEval S α (f + 1) A (some k) = !cutEval S α (f + 1) A (some (-k)) := by
+  rw [cutEval_neg _ _ _ _ _ hk, Bool.not_not]
+
+theorem lfpEval_neg' (S : Store) (α : Nat → Bool) (n : Nat) (k : Int) (hk : k ≠ 0) :
+    lfpEval S α n (some k) = !lfpEval S α n (some (-k)) := by
+  rw [lfpEval_neg _ _ _ _ hk, Bool.not_not]
+
+theorem posKey_of_nonneg (S : Store) {k : Int} (h : 0 ≤ k) : PosKey S (some k) := by
+  simp only [PosKey, posKey, h, ↓reduceIte]
+
+theorem neg_of_not_posKey {S : Store} {k : Int} (hk : ¬ PosKey S (some k)) : k < 0 := by
+  by_cases h0 : 0 ≤ k
+  · exact absurd (posKey_of_nonneg S h0) hk
+  · omega
+
 end ProbLogProofs.Cycles
